@@ -42,7 +42,14 @@ pub enum Case {
     /// a history on encrypted storage with canaries searched in every file
     History { plan: Plan, keyring: bool, big: u8 },
     /// constructor x file-state matrix, in a generated order on one path
-    Matrix { start: FileState, attempts: Vec<Ctor>, nested_dirs: u8 },
+    Matrix {
+        start: FileState,
+        attempts: Vec<Ctor>,
+        nested_dirs: u8,
+        /// spelling of the directory / file names (0 plain, 1 with colons, 2 with spaces, 3 non-ASCII, 4 dot-names and a timestamp)
+        #[serde(default)]
+        name_shape: u8,
+    },
     /// concurrent first opens of one path through the keyring
     ConcurrentOpen { threads: u8 },
 }
@@ -282,10 +289,10 @@ fn populate(st: &MdkSqliteStorage) {
     }
 }
 
-fn matrix(start: FileState, attempts: &[Ctor], nested: u8, rep: &mut CaseReport) -> Result<(), Failure> {
+fn matrix(start: FileState, attempts: &[Ctor], nested: u8, shape: u8, rep: &mut CaseReport) -> Result<(), Failure> {
     ensure_mock_keyring();
     let old_umask = unsafe { libc::umask(0) };
-    let r = matrix_inner(start, attempts, nested, rep);
+    let r = matrix_inner(start, attempts, nested, shape, rep);
     unsafe { libc::umask(old_umask) };
     r
 }
@@ -298,14 +305,22 @@ enum St {
     Enc([u8; 32]),
 }
 
-fn matrix_inner(start: FileState, attempts: &[Ctor], nested: u8, rep: &mut CaseReport) -> Result<(), Failure> {
+fn matrix_inner(start: FileState, attempts: &[Ctor], nested: u8, shape: u8, rep: &mut CaseReport) -> Result<(), Failure> {
     let dir = scratch_dir("c13m");
     let mut parent = dir.0.clone();
     let nested = nested % 3;
+    let (dname, fname): (fn(u8) -> String, &str) = match shape % 5 {
+        0 => (|i| format!("sub{i}"), "m.db"),
+        1 => (|i| format!("acct:alice{i}"), "mdk:main.db"),
+        2 => (|i| format!("with space {i}"), "m y.db"),
+        3 => (|i| format!("donn\u{e9}es{i}"), "\u{43a}\u{43b}\u{44e}\u{447}.db"),
+        _ => (|i| format!(".hidden{i}"), "2026-10-02T12:00.db"),
+    };
+    rep.classes.push(format!("path-names-shape-{}", shape % 5));
     for i in 0..nested {
-        parent = parent.join(format!("sub{i}"));
+        parent = parent.join(dname(i));
     }
-    let path = parent.join("m.db");
+    let path = parent.join(fname);
     let id_a = format!("{}#A", path.display());
     let id_b = format!("{}#B", path.display());
     let k1 = key_for_path(&path);
@@ -525,7 +540,7 @@ pub fn exec(case: &Case, _mode: Mode) -> Result<CaseReport, Failure> {
     let mut rep = CaseReport::default();
     match case {
         Case::History { plan, keyring, big } => history(plan, *keyring, *big, &mut rep)?,
-        Case::Matrix { start, attempts, nested_dirs } => matrix(*start, attempts, *nested_dirs, &mut rep)?,
+        Case::Matrix { start, attempts, nested_dirs, name_shape } => matrix(*start, attempts, *nested_dirs, *name_shape, &mut rep)?,
         Case::ConcurrentOpen { threads } => concurrent(*threads, &mut rep)?,
     }
     Ok(rep)
@@ -569,7 +584,7 @@ pub fn main(args: &Args) -> i32 {
         || {
             prop_oneof![
                 3 => (plan_strategy(&opts, &weights, len.clone()), any::<bool>(), 0u8..5).prop_map(|(plan, keyring, big)| Case::History { plan, keyring, big }),
-                5 => (fstate.clone(), prop::collection::vec(ctor.clone(), 1..7), 0u8..3).prop_map(|(start, attempts, nested_dirs)| Case::Matrix { start, attempts, nested_dirs }),
+                5 => (fstate.clone(), prop::collection::vec(ctor.clone(), 1..7), 0u8..3, prop_oneof![2 => Just(0u8), 3 => 1u8..5]).prop_map(|(start, attempts, nested_dirs, name_shape)| Case::Matrix { start, attempts, nested_dirs, name_shape }),
                 1 => (2u8..17).prop_map(|threads| Case::ConcurrentOpen { threads }),
             ]
         },
